@@ -27,7 +27,7 @@ EXPLANATION = (
     "component name as is - None tests only, never a truthiness fallback (names 0 / '' are legal). NOT decided: equality of failure_cases with the set of offending cells."
 )
 LEVEL_RULE = "one obligation per handler / lazy use / validate method / fenced call"
-FLOORS = {"R1": 4, "R2": 20, "R3": 12, "R4": 6, "R5": 3, "R6": 6, "R7": 5}
+FLOORS = {"R1": 4, "R2": 20, "R3": 12, "R4": 6, "R5": 3, "R6": 6, "R7": 5, "R8": 1}
 
 EH = "pandera/api/base/error_handler.py::ErrorHandler"
 EMPTY_HANDLERS_OK = {
@@ -439,7 +439,42 @@ def r7_column_attribution(ctx):
     return sites
 
 
+def r8_per_column_schema(ctx):
+    """Every regex-matched column is validated against its own (renamed) schema object: collected SchemaErrors keep a
+    reference to the schema they were raised for, so one object renamed per column makes all of them name the last column."""
+    from ..util import Expander
+    ix = ctx.ix
+    f = ix.func("pandera/backends/pandas/components.py::ColumnBackend.validate")
+    ctx.touched(f)
+    n = 0
+    for g in [f] + list(f.nested.values()):
+        ex = Expander(g.node)
+        for c in calls_in(g.node):
+            if callee_last(c) != "validate" or not (isinstance(c.func, ast.Attribute) and isinstance(c.func.value, ast.Call)
+                                                    and callee_last(c.func.value) == "super"):
+                continue
+            arg = c.args[1] if len(c.args) > 1 else kw(c, "schema")
+            if arg is None:
+                continue
+            n += 1
+            e = ex.expand(arg)
+            renamed = any(isinstance(x, ast.Call) and callee_last(x) == "set_name" for x in ast.walk(e))
+            fresh_here = any(isinstance(x, ast.Call) and callee_last(x) in ("copy", "deepcopy") for x in ast.walk(e))
+            local_names = set(ex.defs) | set(ex.params)
+            free = sorted({x.id for x in ast.walk(e) if isinstance(x, ast.Name) and isinstance(x.ctx, ast.Load)
+                           and x.id not in local_names and x.id not in ("copy", "deepcopy", "self")} - {f.positional[2] if len(f.positional) > 2 else "schema"})
+            ok = (not renamed) or (fresh_here and not [v for v in free if v in Expander(f.node).defs])
+            ctx.ob("R8", g, "each matched column is validated against its own renamed schema copy", ok,
+                   f"`{txt(e)[:70]}`: copied inside the per-column call" if ok else
+                   f"`{txt(e)[:70]}` renames an object created once per validate call ({free or 'outside the per-column function'}): every "
+                   "SchemaError collected for earlier columns refers to the same object and ends up naming the last matched column, so the "
+                   "eager error is not among the lazy errors and frame-level failure cases are attributed to the wrong column", g.loc(c))
+    if n == 0:
+        raise AnalysisError("ColumnBackend.validate: per-column array validation call not found")
+
+
 def run(ctx):
+    r8_per_column_schema(ctx)
     r7_column_attribution(ctx)
     r1_collect_error(ctx)
     r2_no_swallow(ctx)
